@@ -480,7 +480,7 @@ class SamplingMethod(DirectMethod):
         return ret
 
     def intg_rk(self, f, X, U, P, Z):
-        assert Z.is_empty()
+        assert Z.is_empty() and f.numel_out("alg")==0, "intg='rk' cannot handle algebraic variables or equations"
         DT = MX.sym("DT")
         DT_control = MX.sym("DT_control")
         t0 = MX.sym("t0")
@@ -506,7 +506,7 @@ class SamplingMethod(DirectMethod):
         return Function('F', [X, U, t0, DT, DT_control, P, Z0], [X + DT / 6 * (k1["ode"] + 2 * k2["ode"] + 2 * k3["ode"] + k4["ode"]), poly_coeff, DT / 6 * (k1["quad"] + 2 * k2["quad"] + 2 * k3["quad"] + k4["quad"]), poly_coeff_q, MX(0, 1), MX()], ['x0', 'u', 't0', 'DT', 'DT_control', 'p', 'z0'], ['xf', 'poly_coeff', 'qf', 'poly_coeff_q', 'zf', 'poly_coeff_z'])
 
     def intg_expl_euler(self, f, X, U, P, Z):
-        assert Z.is_empty()
+        assert Z.is_empty() and f.numel_out("alg")==0, "intg='expl_euler' cannot handle algebraic variables or equations"
         DT = MX.sym("DT")
         DT_control = MX.sym("DT_control")
         t0 = MX.sym("t0")
